@@ -298,6 +298,61 @@ Theorem C15_hub_role_separation_swap : forall (key bkey data : Type) (O : oracle
     mac_msg (role_name Private) ts v <> mac_msg (role_name Public) ts v.
 Proof. intros. eapply hub_role_separation_swap; eauto. apply cache_inv_init. Qed.
 
+(* ---- hubs built from their configuration (NewHub) ------------------------------------------------------------
+   config_keyset is the model of NewHub's reading of [sessions] hashkey / blockkey; keys are their own
+   bytes.  A block key of 16, 24 or 32 bytes IS the block key of the hub (never dropped, never replaced),
+   an empty one means none, every other length is refused; different configurations give different key
+   sets. *)
+Theorem C15_config_keyset_accepts : forall h b ks, config_keyset h b = Some ks ->
+  hk ks = h /\
+  ((b = [] /\ bk ks = None) \/
+   (bk ks = Some b /\ (List.length b = 16 \/ List.length b = 24 \/ List.length b = 32)%nat)).
+Proof. exact config_keyset_accepts. Qed.
+Theorem C15_config_keyset_refuses : forall h b, config_keyset h b = None <->
+  (List.length b <> 0 /\ List.length b <> 16 /\ List.length b <> 24 /\ List.length b <> 32)%nat.
+Proof. exact config_keyset_refuses. Qed.
+Theorem C15_config_keeps_block_key : forall h b,
+  (List.length b = 16 \/ List.length b = 24 \/ List.length b = 32)%nat ->
+  config_keyset h b = Some {| hk := h; bk := Some b |}.
+Proof. exact config_keyset_keeps_block_key. Qed.
+Theorem C15_config_keysets_differ : forall h1 b1 h2 b2 ks,
+  config_keyset h1 b1 = Some ks -> config_keyset h2 b2 = Some ks -> h1 = h2 /\ b1 = b2.
+Proof. exact config_keyset_inj. Qed.
+
+(* ids of a hub with a configured block key carry the value encrypted with THAT key ... *)
+Theorem C15_config_ids_encrypted : forall (data : Type) (O : oracles bytes bytes data) r h b ks ts iv d s, b <> [] ->
+  config_keyset h b = Some ks -> encode O r ks ts iv d = Ok s ->
+  exists p, ser O d = Some p /\
+    let v := b64enc (iv ++ ctr O b iv p) in
+    s = id_string r ts v (hmac O h (mac_msg (role_name r) ts v)).
+Proof. exact @config_encode_form. Qed.
+
+(* ... C15_key_separation for configured hubs: acceptance by two hubs forces the HMAC equation between
+   their two hash keys ... *)
+Theorem C15_config_key_separation : forall (data : Type) (O : oracles bytes bytes data) r h1 b1 h2 b2 k1 k2 s d1 d2,
+  config_keyset h1 b1 = Some k1 -> config_keyset h2 b2 = Some k2 ->
+  decode O r k1 s = Ok d1 -> decode O r k2 s = Ok d2 ->
+  exists ts v, s = id_string r ts v (hmac O h1 (mac_msg (role_name r) ts v)) /\
+    hmac O h1 (mac_msg (role_name r) ts v) = hmac O h2 (mac_msg (role_name r) ts v).
+Proof. exact @config_key_separation. Qed.
+
+(* ... and what a hub configured with another block key (or none) can make of such an id: only what
+   protobuf reads out of the value after ITS key was applied on top of the minting hub's key (the plain
+   serialization comes back only if the two keystreams cancel).  Partial in the sense of
+   C15_key_separation_blockkey_refuted: when protobuf accepts those bytes the id is accepted (known finding
+   C15/codec/blockkey-not-authenticated); a hub that ran WITHOUT its configured block key would hand
+   the plain serialization to every other such hub, which is what the cases of mode 3 look for. *)
+Theorem C15_config_other_block_key_partial : forall (data : Type) (O : oracles bytes bytes data) r h1 b1 h2 b2 k1 k2 ts iv d s d2,
+  b1 <> [] -> List.length iv = iv_size -> parse_int_ok ts = true ->
+  config_keyset h1 b1 = Some k1 -> config_keyset h2 b2 = Some k2 ->
+  encode O r k1 ts iv d = Ok s -> decode O r k2 s = Ok d2 ->
+  exists p, ser O d = Some p /\
+    match b2 with
+    | [] => deser O (iv ++ ctr O b1 iv p) = Some d2
+    | _ => ctr O b1 iv p <> [] /\ deser O (ctr O b2 iv (ctr O b1 iv p)) = Some d2
+    end.
+Proof. exact @config_other_block_key. Qed.
+
 Print Assumptions C15_b64_roundtrip.
 Print Assumptions C15_b64_decoder_ignores_line_breaks.
 Print Assumptions C15_b64_line_break_inserted.
@@ -339,6 +394,13 @@ Print Assumptions C15_hub_decode_refuses.
 Print Assumptions C15_hub_decode_history.
 Print Assumptions C15_hub_role_separation.
 Print Assumptions C15_hub_role_separation_swap.
+Print Assumptions C15_config_keyset_accepts.
+Print Assumptions C15_config_keyset_refuses.
+Print Assumptions C15_config_keeps_block_key.
+Print Assumptions C15_config_keysets_differ.
+Print Assumptions C15_config_ids_encrypted.
+Print Assumptions C15_config_key_separation.
+Print Assumptions C15_config_other_block_key_partial.
 
 From Verif Require Import corr.Run_C15.
 (* the trace predicate of the hub cases on the decoders: an id handed out decodes under its own role
@@ -358,3 +420,59 @@ Example C15_P_hub_roles :
                        (XDecode Private (SLit "x"%string) 0%N no_answers, WNoData)] = None.
 Proof. vm_compute. repeat split; reflexivity. Qed.
 
+(* ---- the key sets of the cases of mode 3 (corr/Run_C15.v) are the model's reading of the configurations ---- *)
+From Coq Require Import Lia.
+
+Lemma key_num_snoc : forall b c, key_num (b ++ [c]) = (key_num b * 256 + N_of_ascii c)%N.
+Proof. intros b c. unfold key_num. rewrite fold_left_app. reflexivity. Qed.
+Lemma key_num_pos : forall b, (1 <= key_num b)%N.
+Proof.
+  intro b. induction b as [|c b IH] using rev_ind; [cbn; lia|]. rewrite key_num_snoc. lia.
+Qed.
+Theorem C15_config_key_numbers_injective : forall a b, key_num a = key_num b -> a = b.
+Proof.
+  intro a. induction a as [|x a IH] using rev_ind; intros b E.
+  - destruct b as [|y b _] using rev_ind; [reflexivity|]. rewrite key_num_snoc in E.
+    pose proof (key_num_pos b). change (key_num []) with 1%N in E. lia.
+  - destruct b as [|y b _] using rev_ind.
+    + rewrite key_num_snoc in E. pose proof (key_num_pos a). change (key_num []) with 1%N in E. lia.
+    + rewrite !key_num_snoc in E.
+      pose proof (N_ascii_bounded x). pose proof (N_ascii_bounded y).
+      assert (key_num a = key_num b /\ N_of_ascii x = N_of_ascii y) as [E1 E2] by lia.
+      rewrite (IH _ E1). f_equal. f_equal.
+      rewrite <- (ascii_N_embedding x), <- (ascii_N_embedding y), E2. reflexivity.
+Qed.
+
+(* two configurations get the same key set on the Coq side of the comparison exactly when the
+   model reads the same key set out of them *)
+Theorem C15_config_cases_use_the_model_keysets : forall c1 c2 k1 k2, cfg_kspec c1 = Some k1 -> cfg_kspec c2 = Some k2 ->
+  (kspec_eqb k1 k2 = true <-> config_keyset (fst c1) (snd c1) = config_keyset (fst c2) (snd c2)).
+Proof.
+  intros c1 c2 k1 k2 H1 H2. unfold cfg_kspec in *.
+  destruct (config_keyset (fst c1) (snd c1)) as [[h1 b1]|]; [|discriminate].
+  destruct (config_keyset (fst c2) (snd c2)) as [[h2 b2]|]; [|discriminate].
+  injection H1 as <-. injection H2 as <-. unfold kspec_eqb. cbn [fst snd hk bk].
+  split.
+  - intro E. apply andb_true_iff in E. destruct E as [E1 E2]. apply N.eqb_eq in E1. apply C15_config_key_numbers_injective in E1. subst h2.
+    destruct b1 as [x|], b2 as [y|]; cbn [option_map] in E2; try discriminate; [|reflexivity].
+    apply N.eqb_eq in E2. apply C15_config_key_numbers_injective in E2. subst y. reflexivity.
+  - intro E. injection E as -> E. subst b2. rewrite N.eqb_refl. destruct b1; cbn [option_map andb]; [apply N.eqb_refl | reflexivity].
+Qed.
+Print Assumptions C15_config_key_numbers_injective.
+Print Assumptions C15_config_cases_use_the_model_keysets.
+
+(* P_C15 on a trace of two configured hubs that share the hash key: the second hub answering with the
+   data for an id of the first is a violation unless the two configurations give the same key set *)
+Example C15_P_config_block_keys :
+  let h := bs "0123456789abcdef0123456789abcdef" in
+  let kss (b1 b2 : string) := cfg_kss [cf h (bs b1); cf h (bs b2)] in
+  let tr ob := [(CMint Private 0 (cd 5%N 1%N) "1"%string [] no_answers, VId "ID"%string);
+                (CDec Private 0 (SMut 0 Private MId) 0%N no_answers, VData (cd 5%N 1%N));
+                (CDec Private 1 (SMut 0 Private MId) 0%N no_answers, ob)] in
+  P_codec (kss "0123456789abcdef"%string "fedcba9876543210"%string) 0 [] [] (tr (VData (cd 5%N 1%N))) = Some 2%nat /\
+  P_codec (kss "0123456789abcdef"%string ""%string) 0 [] [] (tr (VData (cd 5%N 1%N))) = Some 2%nat /\
+  P_codec (kss "0123456789abcdef"%string "fedcba9876543210"%string) 0 [] [] (tr (VErr EDeser)) = None /\
+  P_codec (kss "0123456789abcdef"%string "0123456789abcdef"%string) 0 [] [] (tr (VData (cd 5%N 1%N))) = None /\
+  P_codec (kss "0123456789abcdef"%string "0123456789abcdef"%string) 0 [] [] (tr (VErr EDeser)) = Some 2%nat /\
+  cfg_kspec (cf h (bs "0123456789abcde")) = None.
+Proof. vm_compute. repeat split; reflexivity. Qed.
